@@ -291,7 +291,7 @@ func (wg *WaitGroup) Add(d int) {
 		panic("sync: negative WaitGroup counter")
 	}
 	if d < 0 {
-		raceRelease(unsafe.Pointer(wg))
+		raceReleaseMerge(unsafe.Pointer(wg))
 	}
 	if wg.n == 0 && s != nil {
 		for _, w := range wg.waiters {
@@ -370,7 +370,7 @@ func (p *Pool) Put(x any) {
 	if s != nil && s.pool.Chance(0.2) {
 		return // dropped, as a GC cycle would
 	}
-	raceRelease(unsafe.Pointer(p))
+	raceReleaseMerge(unsafe.Pointer(p))
 	p.items = append(p.items, x)
 	if s != nil {
 		if s.cur.killed {
